@@ -114,7 +114,10 @@ def step (s : St) (l : Line) : St × Verdict :=
           match ts.getLast? with
           | none => (s, .specFail "C02.operator-params" s!"{name}: the command was accepted but no task reached the agent")
           | some t =>
-            if TaskTable.taskOk e ps tid t then (s, .ok)
+            if TaskTable.taskOk e ps tid t then
+              if name == "fs.upload" && !TaskTable.uploadOk (ps.getD 1 []) ts then
+                (s, .specFail "C02.operator-params" s!"fs.upload of {(ps.getD 1 []).length} bytes: the in-memory file the task refers to was not delivered before it, complete and with the operator's content ({ts.length - 1} task(s) precede it)")
+              else (s, .ok)
             else
               let want := e.expected ps
               let got := e.kinds.bind fun ks => (demonRead ks t.body).map (·.1)
